@@ -338,7 +338,13 @@ func c18Logs(p *run.Part) {
 						}
 					}
 				}
-				if err := e.Verify(world.IDs[0].Provider, kio); err != nil {
+				dumpBefore := seqx.DumpEntry(e)
+				verr := e.Verify(world.IDs[0].Provider, kio)
+				if d := seqx.DumpEntry(e); d != dumpBefore {
+					// verification seals the links again on its way to the signed bytes: on a copy, never on the entry it was given
+					viol("verify-mutated-the-entry", fmt.Sprintf("verifying entry %s changed the entry itself:\n before %s\n after  %s", string(e.GetPayload()), dumpBefore, d))
+				}
+				if err := verr; err != nil {
 					viol("verify-failed", fmt.Sprintf("entry %s of the keyed log does not verify with the key: %v", string(e.GetPayload()), err))
 				}
 			}
